@@ -70,6 +70,12 @@ def jq(a, b):
         return a
     if isinstance(a, tuple) and isinstance(b, tuple) and a[0] == b[0] and len(a) == len(b):
         return (a[0], *[jq(x, y) for x, y in zip(a[1:], b[1:])])
+    # two different index spaces meet at a join: keep both (may-set) so that a sink can still see
+    # "already mapped on one path" / "not yet mapped on one path"
+    sa = a if isinstance(a, frozenset) else (frozenset({a}) if a in (USER, FULL, SUB) else None)
+    sb = b if isinstance(b, frozenset) else (frozenset({b}) if b in (USER, FULL, SUB) else None)
+    if sa is not None and sb is not None:
+        return sa | sb
     return UNK
 
 
@@ -251,7 +257,10 @@ class ModeFlow:
 
     def sink_full(self, q, node, what, stmt):
         self.sinks_checked += 1
-        if q == USER:
+        if isinstance(q, frozenset) and (USER in q or SUB in q):
+            self.report("A1-full-sink-gets-user-index", stmt,
+                        f"{what} is, on one of the paths reaching here, a {'user-visible' if USER in q else 'sub-circuit'} mode index that was not mapped to the full mode space ({self.mapper})", inst=f"{self.fi.qualname}:{what}")
+        elif q == USER:
             self.report("A1-full-sink-gets-user-index", stmt,
                         f"{what} is a user-visible mode index that was never mapped to the full mode space ({self.mapper}): on a circuit with heralded sub-circuits it lands on an ancilla mode", inst=f"{self.fi.qualname}:{what}")
         elif q == SUB:
@@ -268,7 +277,7 @@ class ModeFlow:
 
     def sink_user(self, q, node, what, call):
         self.sinks_checked += 1
-        bad = q == FULL or (isinstance(q, tuple) and FULL in q[1:])
+        bad = q == FULL or (isinstance(q, tuple) and FULL in q[1:]) or (isinstance(q, frozenset) and FULL in q)
         if bad:
             self.report("A2-no-double-mapping", call,
                         f"{what} receives an index that is already in the full mode space and maps it again: with an ancilla at or below it the component lands on the wrong mode or the call raises", inst=f"{self.fi.qualname}:{what}")
@@ -779,3 +788,47 @@ def _stmt(par, n):
     while n is not None and not isinstance(n, ast.stmt):
         n = par.get(n)
     return n
+
+
+def swap_append_guard(ctx, res: Result, fi: FuncInfo) -> None:
+    """The compensating ModeSwaps built from the synthesised table is appended unless that table is the identity:
+    the only condition that may skip it is a test of the table itself (keys vs values)."""
+    par = {c: n for n in ast.walk(fi.node) for c in ast.iter_child_nodes(n)}
+    ctors = [n for n in walk_no_nested(fi.node) if isinstance(n, ast.Call) and isinstance(n.func, ast.Name) and n.func.id == "ModeSwaps" and n.args and isinstance(n.args[0], ast.Name)]
+    if not ctors:
+        res.frozen(False, "P-swap-appended-unless-identity", fi.qualname, fi.site(), fi.qualname, "", "ModeSwaps(<table>) construction not recognised", construct="")
+        return
+    for c in ctors:
+        tbl = c.args[0].id
+        guards = []
+        x = c
+        while x is not None and x is not fi.node:
+            p_ = par.get(x)
+            if isinstance(p_, ast.If) and x in p_.body + p_.orelse and x is not p_.test:
+                guards.append((p_, x in p_.body))
+            x = p_
+        inst = f"{fi.qualname}:ModeSwaps({tbl})"
+        if not guards:
+            res.ok("P-swap-appended-unless-identity", inst, fi.site(c), fi.qualname, "appended unconditionally")
+            continue
+        verdicts = []
+        for g, in_body in guards:
+            names = {n.id for n in ast.walk(g.test) if isinstance(n, ast.Name)} - {"list", "tuple", "sorted", "any", "all", "len", "set", "dict"}
+            t = src(g.test).replace(" ", "")
+            comp_vars = {n.id for cg in ast.walk(g.test) if isinstance(cg, ast.comprehension) for n in ast.walk(cg.target) if isinstance(n, ast.Name)}
+            names -= comp_vars
+            forms = (f"list({tbl}.keys())!=list({tbl}.values())", f"list({tbl})!=list({tbl}.values())", f"any(k!=vfork,vin{tbl}.items())", f"{tbl}.keys()!=list({tbl}.values())", f"tuple({tbl}.keys())!=tuple({tbl}.values())")
+            if names == {tbl}:
+                verdicts.append("ok" if (t in forms) == in_body and t in forms else "undecided")
+            elif tbl not in names and names:
+                verdicts.append("bad:" + src(g.test)[:80])
+            else:
+                verdicts.append("undecided")
+        bad = [v for v in verdicts if v.startswith("bad:")]
+        if bad:
+            res.bad("P-swap-appended-unless-identity", inst, fi.site(c), fi.qualname,
+                    f"whether the compensating mode swap is appended is decided by `{bad[0][4:]}`, which does not look at the synthesised table `{tbl}`: heralds that use the same modes at input and output but paired crosswise need the swap although that condition skips it", construct=bad[0][4:])
+        elif "undecided" in verdicts:
+            res.frozen(False, "P-swap-appended-unless-identity", inst, fi.site(c), fi.qualname, "", "guard of the swap append is a test of the table in an unrecognised form", construct=src(guards[0][0].test)[:100])
+        else:
+            res.ok("P-swap-appended-unless-identity", inst, fi.site(c), fi.qualname, "skipped only when the synthesised table is the identity")
